@@ -194,7 +194,7 @@ func modesWriteError(out *scenOut, exit string) {
 	case "ctx":
 		cancel()
 	case "panic-update":
-		ctl.panicOn["update:u9.9"] = true
+		ctl.panicOn.set("update:u9.9")
 		go run.p.Send(userMsg{9, 9})
 	case "panic-cmd":
 		go run.p.Send(userMsg{8, 1})
@@ -386,10 +386,10 @@ func modesOnce(out *scenOut, o modeOpts, ek string, hist []int, released bool) {
 		case "readerr":
 			readGate.open()
 		case "panic-update":
-			ctl.panicOn["update:u9.9"] = true
+			ctl.panicOn.set("update:u9.9")
 			go run.p.Send(userMsg{9, 9})
 		case "panic-view":
-			ctl.panicOn["view"] = true
+			ctl.panicOn.set("view")
 			go run.p.Send(userMsg{9, 8})
 		case "panic-cmd":
 			go run.p.Send(userMsg{8, 1})
